@@ -100,7 +100,7 @@ where
         let a_size: usize = res_infos.max_k().as_usize().div_ceil(tsk_base2k);
 
         let lvl_0: usize = self.bytes_of_vec_znx_dft(cols - 1, a_size) + VecZnx::bytes_of(self.n(), 1, a_size);
-        let lvl_1_res_dft: usize = self.bytes_of_vec_znx_dft(cols, a_size);
+        let lvl_1_res_dft: usize = self.bytes_of_vec_znx_dft(cols, tsk_infos.size());
         let lvl_1_gglwe_prod: usize = self.gglwe_product_dft_tmp_bytes(res_size, a_size, tsk_infos);
         let lvl_1_norm_big: usize = self.vec_znx_big_normalize_tmp_bytes();
         let lvl_1: usize = lvl_1_res_dft + lvl_1_gglwe_prod.max(lvl_1_norm_big);
